@@ -1,7 +1,9 @@
 package c19
 
 import (
+	"bytes"
 	"encoding/base64"
+	"encoding/binary"
 	"encoding/hex"
 	"fmt"
 	"math/rand"
@@ -148,6 +150,87 @@ func driveIssued(out *[]ev.M, r *rand.Rand, mu *sync.Mutex, lifetimes []int64, w
 	wg.Wait()
 }
 
+// tampered: payloads made by GeneratePayload with one thing changed -- every byte of the nonce, of the time field and of
+// the tag; the time field rewritten to now, to later times within the window -- and an expired payload "revived" by
+// writing the present time into it. Each must be refused, whatever the format is.
+func driveTampered(out *[]ev.M, r *rand.Rand, n int, revive bool) {
+	emit := func(srv *tonconnect.Server, secret []byte, life int64, class, orig string, raw []byte, upper bool) {
+		text := hex.EncodeToString(raw)
+		if upper {
+			text = fmt.Sprintf("%X", raw)
+		}
+		for {
+			now := settle().Unix()
+			g := callCheckPayload(srv, text)
+			if time.Now().Unix() != now {
+				continue
+			}
+			*out = append(*out, ev.M{"k": "Tampered", "p": "C19", "class": class, "secret": hex.EncodeToString(secret), "lp": life,
+				"now": strconv.FormatInt(now, 10), "orig": hx(orig), "payload": hx(text), "go": g.m()})
+			return
+		}
+	}
+	region := func(i int) string {
+		switch {
+		case i < 8:
+			return "nonce"
+		case i < 16:
+			return "time"
+		}
+		return "tag"
+	}
+	for k := 0; k < n; k++ {
+		secret := make([]byte, 8+r.Intn(24))
+		r.Read(secret)
+		life := int64(100 + r.Intn(2000))
+		srv, err := tonconnect.NewTonConnect(newExecutor(nil), string(secret), tonconnect.WithLifeTimePayload(life))
+		if err != nil {
+			panic(err)
+		}
+		orig, err := srv.GeneratePayload()
+		raw, derr := hex.DecodeString(orig)
+		if err != nil || derr != nil || len(raw) != 32 {
+			*out = append(*out, ev.M{"k": "Tampered", "p": "C19", "class": "generate_failed", "secret": hex.EncodeToString(secret), "lp": life,
+				"now": strconv.FormatInt(time.Now().Unix(), 10), "orig": hx(orig), "payload": hx(orig), "go": goResult{Panic: "GeneratePayload did not return 32 bytes of hex"}.m()})
+			continue
+		}
+		for i := 0; i < 32; i++ {
+			for _, d := range []byte{1, 0x80, 0xff} {
+				m := append([]byte{}, raw...)
+				m[i] += d
+				emit(srv, secret, life, region(i)+"_byte", orig, m, false)
+			}
+		}
+		now := time.Now().Unix()
+		for _, t := range []int64{now + 1, now + life/2, now + life - 1, now - 1, now - life/2, 0} {
+			m := append([]byte{}, raw...)
+			binary.BigEndian.PutUint64(m[8:16], uint64(t))
+			if !bytes.Equal(m, raw) {
+				emit(srv, secret, life, "time_rewritten", orig, m, false)
+			}
+		}
+		emit(srv, secret, life, "respelled", orig, raw, true) // the same bytes in upper-case digits: free
+	}
+	if revive {
+		secret := []byte("revive-secret")
+		srv, err := tonconnect.NewTonConnect(newExecutor(nil), string(secret), tonconnect.WithLifeTimePayload(1))
+		if err != nil {
+			panic(err)
+		}
+		orig, _ := srv.GeneratePayload()
+		if raw, err := hex.DecodeString(orig); err == nil && len(raw) == 32 {
+			time.Sleep(2300 * time.Millisecond) // now it has expired
+			for _, back := range []int64{0, 1} {
+				m := append([]byte{}, raw...)
+				binary.BigEndian.PutUint64(m[8:16], uint64(time.Now().Unix()-back))
+				if !bytes.Equal(m, raw) {
+					emit(srv, secret, 1, "expired_revived", orig, m, false)
+				}
+			}
+		}
+	}
+}
+
 // ---------------------------------------------------------------- single-field substitutions and bit flips of valid proofs
 
 var mutFields = []string{"address", "domain", "ts", "sig", "payload", "state_init"}
@@ -256,6 +339,11 @@ func Drive(w *ev.Writer, o Opts) error {
 		go func() {
 			defer wg.Done()
 			ri := rand.New(rand.NewSource(o.Seed + 99))
+			var rv []ev.M
+			var wg2 sync.WaitGroup
+			wg2.Add(1)
+			go func() { defer wg2.Done(); driveTampered(&rv, rand.New(rand.NewSource(o.Seed+7)), 0, true) }()
+			defer func() { wg2.Wait(); mu.Lock(); issued = append(issued, rv...); mu.Unlock() }()
 			driveIssued(&issued, ri, &mu, []int64{1, 2, 3, 300}, []time.Duration{0, 300 * time.Millisecond, 1300 * time.Millisecond, 2300 * time.Millisecond, 3300 * time.Millisecond, 4300 * time.Millisecond})
 		}()
 	}
@@ -266,7 +354,10 @@ func Drive(w *ev.Writer, o Opts) error {
 	if err := driveBagSweep(w, r, o.Tier == "thorough", o.Seed, o.Shard, o.Shards); err != nil {
 		return err
 	}
+	var tampered []ev.M
+	driveTampered(&tampered, r, map[bool]int{false: 1, true: 4}[o.Tier == "thorough"], false)
 	wg.Wait()
+	issued = append(issued, tampered...)
 	for _, m := range issued {
 		w.Emit(m)
 	}
